@@ -316,16 +316,15 @@ Proof.
   destruct E as [x [Hx Hb]]. apply bytes_eqb_eq in Hb. subst. exact (H Hx).
 Qed.
 
-Definition str_good (s : list byte) : Prop := lenN s < string_buf.
 
-Lemma run_strings : forall strs pre st, a_mod st = mkmod 0 0 pre [] [] -> NoDup (pre ++ strs) -> Forall str_good strs ->
+Lemma run_strings : forall strs pre st, a_mod st = mkmod 0 0 pre [] [] -> NoDup (pre ++ strs) ->
   exists st', run st (map string_line strs) = inl st' /\ a_mod st' = mkmod 0 0 (pre ++ strs) [] [] /\
               a_in_fn st' = a_in_fn st /\ a_patches st' = a_patches st /\ a_labels st' = a_labels st.
 Proof.
-  induction strs as [|s strs IH]; intros pre st Hmod Hnd Hg.
+  induction strs as [|s strs IH]; intros pre st Hmod Hnd.
   - exists st. rewrite app_nil_r. repeat split; try reflexivity. exact Hmod.
-  - inversion Hg as [|? ? Hlen Hg']; subst. cbn [map AsmFn.run].
-    rewrite (LL string_line_prep). rewrite (LL process_string) by exact Hlen.
+  - cbn [map AsmFn.run].
+    rewrite (LL string_line_prep). rewrite (LL process_string).
     assert (Hni : ~ In s pre).
     { apply NoDup_remove_2 in Hnd. intros H. apply Hnd. apply in_or_app. left. exact H. }
     assert (Hadd : fst (add_string (a_mod st) s) = mkmod 0 0 (pre ++ [s]) [] []).
@@ -334,7 +333,6 @@ Proof.
     destruct (IH (pre ++ [s]) (set_mod st (mkmod 0 0 (pre ++ [s]) [] []))) as [st' [Hr [Em [E1 [E2 E3]]]]].
     + reflexivity.
     + rewrite <- app_assoc. exact Hnd.
-    + exact Hg'.
     + exists st'. split; [exact Hr|]. rewrite <- app_assoc in Em. repeat split; assumption.
 Qed.
 
@@ -479,7 +477,6 @@ Proof.
 Qed.
 
 Record wf_facts (m : module) : Prop := {
-  wf_sgood : Forall str_good (m_strings m);
   wf_nodup : distinct_strs (m_strings m) = true;
   wf_fgood : Forall (fent_good m) (m_funcs m);
   wf_lay : layout_okb (m_funcs m) 0 (lenN (m_code m)) = true;
@@ -490,11 +487,9 @@ Record wf_facts (m : module) : Prop := {
 Lemma wf_unpack m : wf_moduleb TL good m = true -> wf_facts m.
 Proof.
   unfold wf_moduleb, wf_conjuncts. cbn [forallb]. rewrite !andb_true_iff.
-  intros [Hlen [_ [Hdist [Hff [Hfn [Hlay [Hcb [Hdec [Hpt [Hf64 [Hent _]]]]]]]]]]].
-  unfold wf_str_len, all_strings in *. rewrite forallb_forall in Hlen.
+  intros [_ [Hdist [Hff [Hfn [Hlay [Hcb [Hdec [Hpt [Hf64 [Hent _]]]]]]]]]].
   unfold wf_layout in Hlay. apply andb_true_iff in Hlay. destruct Hlay as [Hlay Hcl]. apply N.ltb_lt in Hcl.
   constructor.
-  - apply Forall_forall. intros s Hs. apply N.ltb_lt. apply Hlen, Hs.
   - exact Hdist.
   - apply Forall_forall. intros f Hf. unfold wf_fn_fields, wf_fn_names, wf_code_decodes, wf_code_patches, wf_code_f64, all_codes in *.
     rewrite forallb_forall in Hff, Hfn, Hdec, Hpt, Hf64.
@@ -560,7 +555,7 @@ Proof.
     intros f Hf. split; [eapply layout_bounds; eassumption|]. rewrite Forall_forall in wf_fgood0.
     destruct (wf_fgood0 f Hf) as [_ [_ [_ [_ Hc]]]]. unfold wf_codeb in Hc. rewrite !andb_true_iff in Hc. tauto. }
   unfold asm_assemble. rewrite Hdl, (cstr_id _ H0), (split_join_all _ H10).
-  destruct (run_strings (m_strings m) [] (init_state) eq_refl (distinct_NoDup _ wf_nodup0) wf_sgood0)
+  destruct (run_strings (m_strings m) [] (init_state) eq_refl (distinct_NoDup _ wf_nodup0))
     as [st_s [Hr_s [Em_s [Ei_s [Ep_s El_s]]]]]. cbn [app] in Em_s.
   set (fl := if N.testbit (m_flags m) 0 then flag_has_main else 0).
   set (en := if N.testbit (m_flags m) 0 then m_entry m else 0).
